@@ -114,3 +114,48 @@ pub fn describe(spans: &[PackSpan]) -> String {
         .collect::<Vec<_>>()
         .join(" ")
 }
+
+/// Structural completeness of a pack file, decided without the library: the top-level pack
+/// declares exactly the file's length, its last 64 bytes mirror its first 64, and the same
+/// holds for every inner pack of a container.
+pub fn complete(b: &[u8]) -> Result<(), String> {
+    if b.len() < 128 {
+        return Err(format!("only {} bytes", b.len()));
+    }
+    let spans = scan_file(b);
+    let Some(top) = spans.first() else {
+        return Err("no pack header at offset 0".into());
+    };
+    // A container pack declares check_info_pos + 64: its own 5-byte check block is not counted
+    // (a quirk of the pinned writer), so the real extent is 5 bytes longer.
+    let slack = if top.kind == b'C' { 5 } else { 0 };
+    if top.size + slack != b.len() as u64 {
+        return Err(format!(
+            "declared size {} (+{slack}) differs from file length {}",
+            top.size,
+            b.len()
+        ));
+    }
+    if top.kind == b'C' {
+        let count = u16::from_le_bytes(b[72..74].try_into().unwrap()) as usize;
+        if spans.len() != count + 1 {
+            return Err(format!(
+                "container declares {count} packs, {} could be located",
+                spans.len() - 1
+            ));
+        }
+    }
+    for s in &spans {
+        let a = s.start as usize;
+        let e = (s.start + s.size) as usize + if s.kind == b'C' { 5 } else { 0 };
+        let head = &b[a..a + 64];
+        let tail: Vec<u8> = b[e - 64..e].iter().rev().copied().collect();
+        if head != &tail[..] {
+            return Err(format!(
+                "tail of pack '{}' at {} is not the mirror of its header",
+                s.kind as char, s.start
+            ));
+        }
+    }
+    Ok(())
+}
